@@ -43,6 +43,7 @@ TARGETS = {
     "c13_dg":     ("mpi", ["harness/c13_dg.cpp"], True),
     "c13_blocked": ("mpi", ["harness/c13_blocked.cpp"], True),
     "c13_stokes": ("mpi", ["harness/c13_stokes.cpp"], True),
+    "c13_tm":     ("mpi_tm", ["harness/c13_tm.cpp"], True),
     "c05_streams": ("nompi", ["harness/c05_streams.cpp"], False),
     "c05_checkpoint": ("mpi", ["harness/c05_checkpoint.cpp"], True),
     "c11_mesh":   ("nompi", ["harness/c11_mesh.cpp"], False),
@@ -52,7 +53,7 @@ GUARD_TARGETS = ["c11_mesh.guard", "c11_pmap.guard", "c05_streams.guard"]
 PROPERTY_TARGETS = {
     "C17": ["c17_fence", "c17_asm"],
     "C12": ["c12_domain"],
-    "C13": ["c13_scalar", "c13_app", "c13_app_neumann", "c13_q2", "c13_dg", "c13_blocked", "c13_stokes"],
+    "C13": ["c13_scalar", "c13_app", "c13_app_neumann", "c13_q2", "c13_dg", "c13_blocked", "c13_stokes", "c13_tm"],
     "C05": ["c05_streams", "c05_checkpoint", "c05_streams.guard"],
     "C11": ["c11_mesh", "c11_pmap", "c11_mesh.guard", "c11_pmap.guard"],
     "SIMMPI": ["simmpi_selftest"],
@@ -68,8 +69,11 @@ def gen_config(kind):
     d = os.path.join(BUILD, "cfg_" + kind)
     os.makedirs(d, exist_ok=True)
     enabled = set()
-    if kind == "mpi":
+    if kind in ("mpi", "mpi_tm"):
         enabled.add("FEAT_HAVE_MPI")
+    if kind == "mpi_tm":
+        # thread-multiple configuration: asynchronous scalar reductions run their MPI calls on a helper thread
+        enabled.add("FEAT_MPI_THREAD_MULTIPLE")
     values = {"FEAT_SOURCE_DIR": REPO, "FEAT_BINARY_DIR": BUILD, "CMAKE_CXX_COMPILER_ID": "GNU",
               "CMAKE_CXX_COMPILER": CXX, "FEAT_HOSTNAME": "sim", "CMAKE_VERSION": "0", "CMAKE_MPI_VERSION": "3.1"}
     out = []
@@ -89,10 +93,13 @@ def gen_config(kind):
 
 def flags_for(kind, flavour, simmpi):
     inc = ["-I" + gen_config(kind), "-I" + VERIF]
-    if simmpi or kind == "mpi":
+    if simmpi or kind in ("mpi", "mpi_tm"):
         inc.append("-I" + os.path.join(VERIF, "simmpi", "include"))
     inc.append("-I" + REPO)
-    return COMMON + (SAN if flavour == "san" else FAST) + (['-DSIM_FLAVOUR_GUARD'] if flavour == 'guard' else []) + inc
+    extra = ['-DSIM_FLAVOUR_GUARD'] if flavour == 'guard' else []
+    if kind == "mpi_tm":
+        extra.append("-DSIM_MAX_TASKS=4096")   # one helper thread per scalar reduction and rank
+    return COMMON + (SAN if flavour == "san" else FAST) + extra + inc
 
 
 def compile_obj(src, flags):
